@@ -45,9 +45,15 @@ def local_assignments(fn: FuncInfo) -> dict[str, list[ast.expr]]:
     return out
 
 
-def is_self_molecules(e: ast.expr, base: str = "self") -> bool:
+def is_self_molecules(e: ast.expr, base: str = "self", assigns=None) -> bool:
     d = dotted(e)
-    return d in (f"{base}.molecules", f"{base}._molecules")
+    if d in (f"{base}.molecules", f"{base}._molecules"):
+        return True
+    if assigns is not None and isinstance(e, ast.Name):
+        # a local alias: `molecules = self.molecules`
+        vals = assigns.get(e.id, [])
+        return len(vals) == 1 and is_self_molecules(vals[0], base)
+    return False
 
 
 def mol_order_source(e: ast.expr, assigns, base="self", depth=0) -> str:
@@ -59,9 +65,9 @@ def mol_order_source(e: ast.expr, assigns, base="self", depth=0) -> str:
         f = e.func
         if isinstance(f, ast.Name) and f.id in ("range",) and len(e.args) == 1:
             a = e.args[0]
-            if isinstance(a, ast.Call) and isinstance(a.func, ast.Attribute) and a.func.attr in ("count", "__len__") and is_self_molecules(a.func.value, base):
+            if isinstance(a, ast.Call) and isinstance(a.func, ast.Attribute) and a.func.attr in ("count", "__len__") and is_self_molecules(a.func.value, base, assigns):
                 return "Mol"
-            if isinstance(a, ast.Call) and isinstance(a.func, ast.Name) and a.func.id == "len" and a.args and is_self_molecules(a.args[0], base):
+            if isinstance(a, ast.Call) and isinstance(a.func, ast.Name) and a.func.id == "len" and a.args and is_self_molecules(a.args[0], base, assigns):
                 return "Mol"
             if isinstance(a, ast.Call) and isinstance(a.func, ast.Attribute) and a.func.attr == "count" and dotted(a.func.value) == base:
                 return "Mol"
@@ -70,13 +76,13 @@ def mol_order_source(e: ast.expr, assigns, base="self", depth=0) -> str:
             return "?"
         if isinstance(f, ast.Name) and f.id in ("enumerate", "list", "tuple", "iter") and e.args:
             return mol_order_source(e.args[0], assigns, base, depth + 1)
-        if isinstance(f, ast.Attribute) and f.attr in MOL_DERIVED and is_self_molecules(f.value, base):
+        if isinstance(f, ast.Attribute) and f.attr in MOL_DERIVED and is_self_molecules(f.value, base, assigns):
             return "Mol"
         if isinstance(f, ast.Attribute) and f.attr in ("enumerate", "tolist", "asarrays", "__iter__"):
             return mol_order_source(f.value, assigns, base, depth + 1)
         return "?"
     if isinstance(e, ast.Attribute):
-        if e.attr in MOL_DERIVED and is_self_molecules(e.value, base):
+        if e.attr in MOL_DERIVED and is_self_molecules(e.value, base, assigns):
             return "Mol"
         if e.attr == "loaders" and dotted(e.value) == base:
             return "Grouped"
